@@ -183,7 +183,7 @@ func emitC09(t *tr) {
 		allOK = allOK && ok
 		descr = append(descr, name+":"+map[bool]string{true: "ok", false: "BAD"}[ok])
 	}
-	want := []string{"ACMEIssuer.newACMEClientWithAccount", "CleanStorage", "Config.obtainCert", "Config.renewCert", "Config.updateARI"}
+	want := []string{"ACMEIssuer.deleteAccountLocallyIfCurrent", "ACMEIssuer.newACMEClientWithAccount", "CleanStorage", "Config.obtainCert", "Config.renewCert", "Config.updateARI"}
 	if strings.Join(names, ",") != strings.Join(want, ",") {
 		t.errf("lock call sites: expected exactly %v, found %v", want, names)
 		return
